@@ -130,6 +130,25 @@ func (s *Syncer[H]) moveTail(ctx context.Context, from, to H) error {
 	switch {
 	case from.Height() < to.Height():
 		log.Infof("move tail up from %d to %d, pruning the diff...", from.Height(), to.Height())
+		if head, err := s.store.Store.Head(ctx); err == nil && to.Height() > head.Height()+1 {
+			// The new tail is above all the stored headers, e.g. the node was down for longer than the
+			// pruning window, so none of them is to be retained. The tail can't be moved over the head,
+			// thus drop all of them and start the store over from the new tail.
+			err = s.store.DeleteRange(ctx, from.Height(), head.Height()+1)
+			if err != nil {
+				return fmt.Errorf(
+					"deleting all headers below newly configured tail(%d): %w",
+					to.Height(),
+					err,
+				)
+			}
+			if err = s.store.Store.Append(ctx, to); err != nil {
+				return fmt.Errorf("appending newly configured tail(%d): %w", to.Height(), err)
+			}
+			s.store.head.Store(&to)
+			return nil
+		}
+
 		err := s.store.DeleteRange(ctx, from.Height(), to.Height())
 		if err != nil {
 			return fmt.Errorf(
